@@ -183,14 +183,17 @@ impl Server {
                 // prioritize nodes supporting signed peers..
                 let mut nodes = signing_peers_routing_table.closest(target).to_vec();
                 if nodes.len() < MAX_BUCKET_SIZE_K {
-                    nodes.extend_from_slice(
-                        &routing_table
-                            .closest(target)
-                            .iter()
-                            .take(MAX_BUCKET_SIZE_K - nodes.len())
-                            .cloned()
-                            .collect::<Vec<_>>(),
-                    );
+                    // Nodes that support signed peers are in both routing tables,
+                    // do not list them twice.
+                    let listed = nodes.len();
+                    let more = routing_table
+                        .closest(target)
+                        .iter()
+                        .filter(|node| !nodes.iter().any(|n| n.id() == node.id()))
+                        .take(MAX_BUCKET_SIZE_K - listed)
+                        .cloned()
+                        .collect::<Vec<_>>();
+                    nodes.extend_from_slice(&more);
                 }
 
                 MessageType::Response(ResponseSpecific::FindNode(FindNodeResponseArguments {
